@@ -33,6 +33,9 @@ fn markp(n: &str, req: bool, e: E) -> E {
 fn app(f: &str, args: Vec<E>) -> E {
     E::App(None, f.into(), args)
 }
+fn app_q(q: &str, f: &str, args: Vec<E>) -> E {
+    E::App(Some(q.to_owned()), f.to_owned(), args)
+}
 fn ann(e: E, a: &str) -> E {
     E::Ann(vec![], Box::new(e), Some(a.into()))
 }
@@ -898,6 +901,45 @@ pub fn f6_rec_programs() -> Vec<Program> {
         fun("f", &["z"], obj(vec![prop("v", var("z")), prop("t", var("t"))])),
         get(content(obj(vec![prop("m", app("f", vec![num()])), prop("n", app("f", vec![str_()]))]))),
     ]));
+    // a cycle through a function and a declaration, legally cut at the declaration, entered
+    // through the function and through the declaration
+    {
+        let treef = fun("tree", &["x"], E::Rec("y".into(), Box::new(obj(vec![prop("node", var("node")), prop("value", var("x")), prop("next", var("y"))]))));
+        let node = let_("node", app("tree", vec![E::Prim(Prim::Int)]));
+        programs.push(single(vec![treef.clone(), node.clone(), get(content(app("tree", vec![str_()])))]));
+        programs.push(single(vec![treef.clone(), node.clone(), get(content(var("node")))]));
+        programs.push(single(vec![treef.clone(), node.clone(), get(content(var("node"))), get_at("b", content(app("tree", vec![str_()])))]));
+        programs.push(single(vec![treef, node, get(content(app("tree", vec![str_()]))), get_at("b", content(var("node")))]));
+    }
+    // imported recursive declarations mentioned from a declaration of the importing module
+    for q in [None, Some("m".to_owned())] {
+        let use_ = |n: &str| match &q {
+            Some(q) => qvar(q, n),
+            None => var(n),
+        };
+        programs.push(Program {
+            modules: vec![
+                Module {
+                    name: "main.oal".into(),
+                    stmts: vec![
+                        Stmt::Use("m.oal".into(), q.clone()),
+                        let_("wrap", obj(vec![prop("n", use_("node")), prop("pair", use_("a"))])),
+                        let_("again", arr(var("wrap"))),
+                        get(content(var("again"))),
+                        get_at("b", content(use_("b"))),
+                    ],
+                },
+                Module {
+                    name: "m.oal".into(),
+                    stmts: vec![
+                        let_("node", obj(vec![prop("value", E::Prim(Prim::Int)), prop("next", var("node"))])),
+                        let_("a", obj(vec![prop("b", arr(var("b")))])),
+                        let_("b", obj(vec![prop("a", var("a"))])),
+                    ],
+                },
+            ],
+        });
+    }
     // recursion defined in an imported module
     for q in [None, Some("m".to_owned())] {
         let use_ = |n: &str| match &q {
@@ -1090,6 +1132,41 @@ pub fn f7() -> Fragment {
             let_("@9", obj(vec![prop("e", var("@$error")), prop("l", var("@x-y_z"))])),
             get(content(var("@9"))),
             get_at("b", op(Op::Range, vec![content(var("@x-y_z")), E::Content(vec![(Meta::Status, status(404))], Some(Box::new(var("@$error"))))])),
+        ],
+        // a reference to a reference (and a longer chain) where the value is needed
+        vec![
+            let_("@root", uri_lit(&["api"])),
+            let_("@entry", var("@root")),
+            let_("@again", var("@entry")),
+            Stmt::Res(rel(var("@entry"), vec![xfer(Method::Get, content(obj(vec![prop("self", var("@again"))])))])),
+            Stmt::Res(rel(app("concat", vec![var("@again"), uri_lit(&["more"])]), vec![xfer(Method::Get, E::Content(vec![], None))])),
+        ],
+        vec![
+            let_("@tracing", obj(vec![prop("X-Trace", str_())])),
+            let_("@common", var("@tracing")),
+            let_("@third", var("@common")),
+            get(E::Content(vec![(Meta::Headers, var("@common"))], Some(Box::new(o.clone())))),
+            get_at("b", E::Content(vec![(Meta::Headers, var("@third"))], Some(Box::new(var("@common"))))),
+        ],
+        vec![
+            let_("node", var("tree")),
+            let_("tree", obj(vec![prop("children", arr(var("node")))])),
+            get(E::Content(vec![(Meta::Headers, var("node"))], Some(Box::new(var("node"))))),
+        ],
+        // a path variable whose schema is reached through a reference, an alias, a parameter, a rec
+        vec![
+            let_("@orderId", E::Prim(Prim::Int)),
+            Stmt::Res(rel(E::Uri(vec![Seg::Lit("orders".into()), Seg::Var(Box::new(prop("id", var("@orderId"))))], None), vec![xfer(Method::Get, E::Content(vec![], None))])),
+        ],
+        vec![
+            let_("key", str_()),
+            fun("at", &["t"], E::Uri(vec![Seg::Lit("items".into()), Seg::Var(Box::new(prop("id", var("t"))))], None)),
+            Stmt::Res(rel(E::Uri(vec![Seg::Lit("a".into()), Seg::Var(Box::new(prop("k", var("key"))))], None), vec![xfer(Method::Get, E::Content(vec![], None))])),
+            Stmt::Res(rel(app("at", vec![var("@n")]), vec![xfer(Method::Get, E::Content(vec![], None))])),
+            let_("@n", num()),
+        ],
+        vec![
+            Stmt::Res(rel(E::Uri(vec![Seg::Lit("r".into()), Seg::Var(Box::new(prop("id", E::Rec("x".into(), Box::new(E::Prim(Prim::Int))))))], None), vec![xfer(Method::Get, E::Content(vec![], None))])),
         ],
         // ref through a plain alias and through a function
         vec![let_("@a", o.clone()), let_("c", var("@a")), get(content(var("c")))],
@@ -1395,6 +1472,29 @@ pub fn f8() -> Fragment {
             },
         ],
     });
+    // @references of a module imported with a qualifier: used through the qualifier (accepted),
+    // without it and through a wrong one (no binder)
+    for (q_use, _ok) in [(Some("m"), true), (None, false), (Some("zz"), false)] {
+        let r = |n: &str| match q_use {
+            Some(q) => qvar(q, n),
+            None => var(n),
+        };
+        programs.push(Program {
+            modules: vec![
+                Module {
+                    name: "main.oal".into(),
+                    stmts: vec![
+                        Stmt::Use("m.oal".into(), Some("m".into())),
+                        get(content(obj(vec![prop("u", r("@user")), prop("p", app_q("m", "page", vec![r("@user")]))]))),
+                    ],
+                },
+                Module {
+                    name: "m.oal".into(),
+                    stmts: vec![let_("@user", obj(vec![prop("name", str_())])), fun("page", &["item"], obj(vec![prop("items", arr(var("item")))]))],
+                },
+            ],
+        });
+    }
     // relative spellings of the same module
     for sp in ["m.oal", "./m.oal", "d/../m.oal"] {
         programs.push(Program {
@@ -1528,6 +1628,13 @@ pub fn f9() -> Fragment {
                 }
             }
         }
+    }
+    // an alias declaration (its right-hand side is just a variable) that carries annotations
+    for a in ["title: First item", "description: d1", "description: d1, title: t1", "examples: {e1: u1, e2: u2}"] {
+        let item = let_("item", obj(vec![prop("p", num())]));
+        programs.push(single(vec![item.clone(), let_("first", ann(var("item"), a)), get(content(var("first")))]));
+        programs.push(single(vec![item.clone(), let_ann("first", a, var("item")), get(content(obj(vec![prop("f", var("first")), prop("i", var("item"))])))]));
+        programs.push(single(vec![item, let_("first", ann(var("item"), a)), let_("second", var("first")), get(content(var("second")))]));
     }
     // contents: description, examples
     for a in ["description: dc", "examples: {e1: u1, e2: u2}", "description: dc, examples: {e: u}"] {
@@ -1673,6 +1780,49 @@ pub fn f10() -> Fragment {
         Stmt::Res(rel(uri_lit(&["root"]), vec![ok.clone()])),
         Stmt::Res(rel(uri_lit(&[""]), vec![ok.clone()])),
     ]));
+    // the same tag written twice in one content (the later one is the one evaluated): valid and
+    // ill-kinded values in either place
+    {
+        let body = obj(vec![prop("id", num())]);
+        let stat = [E::Num(201), E::Str("created".into()), num()];
+        for a in stat.iter() {
+            for b in stat.iter() {
+                programs.push(single(vec![get(E::Content(vec![(Meta::Status, a.clone()), (Meta::Status, b.clone())], Some(Box::new(body.clone()))))]));
+            }
+        }
+        let med = [text("a/b"), E::Num(5), num()];
+        for a in med.iter() {
+            for b in med.iter() {
+                programs.push(single(vec![get(E::Content(vec![(Meta::Media, a.clone()), (Meta::Media, b.clone())], Some(Box::new(body.clone()))))]));
+            }
+        }
+        let hd = [obj(vec![prop("H", str_())]), E::Num(5), text("x")];
+        for a in hd.iter() {
+            for b in hd.iter() {
+                programs.push(single(vec![get(E::Content(vec![(Meta::Headers, a.clone()), (Meta::Headers, b.clone())], Some(Box::new(body.clone()))))]));
+            }
+        }
+        // through a parameter
+        programs.push(single(vec![
+            fun("reply", &["code", "b"], E::Content(vec![(Meta::Status, E::Num(200)), (Meta::Status, var("code"))], Some(Box::new(var("b"))))),
+            get(app("reply", vec![obj(vec![prop("oops", E::Prim(Prim::Bool))]), arr(str_())])),
+        ]));
+    }
+    // path segments and variable names that differ only by punctuation of the identifier / path
+    // alphabet get different operation ids
+    for (a, b) in [("v1.0", "v1-0"), ("a_b", "a-b"), ("a~b", "a-b"), ("x.y", "x_y")] {
+        programs.push(single(vec![
+            Stmt::Res(rel(uri_lit(&[a, "reports"]), vec![ok.clone()])),
+            Stmt::Res(rel(uri_lit(&[b, "reports"]), vec![ok.clone()])),
+        ]));
+    }
+    for (a, b) in [("user_id", "user-id"), ("id$", "id-"), ("k_1", "k-1")] {
+        programs.push(single(vec![
+            Stmt::Res(rel(E::Uri(vec![Seg::Lit("users".into()), Seg::Var(Box::new(prop(a, num()))), Seg::Lit("keys".into())], None), vec![ok.clone()])),
+            Stmt::Res(rel(E::Uri(vec![Seg::Lit("users".into()), Seg::Var(Box::new(prop(b, num()))), Seg::Lit("keys".into()), Seg::Lit("all".into())], None), vec![ok.clone()])),
+            Stmt::Res(rel(E::Uri(vec![Seg::Lit("people".into()), Seg::Var(Box::new(prop(b, num()))), Seg::Lit("keys".into())], None), vec![ok.clone()])),
+        ]));
+    }
     // paths that differ only by a trailing slash are different resources with different ids
     programs.push(single(vec![
         Stmt::Res(rel(uri_lit(&["a"]), vec![ok.clone()])),
